@@ -167,9 +167,9 @@ def payload(t, variant='Some'):
         return ('idx', t[1], t[2])
     if t[0] == 'ite':
         # the payload only exists on the Some side: a None alternative contributes nothing
-        if t[3] == ('none',):
+        if t[3] == ('none',) or (t[3][:1] == ('err',) and variant == 'Ok'):
             return payload(t[2], variant)
-        if t[2] == ('none',):
+        if t[2] == ('none',) or (t[2][:1] == ('err',) and variant == 'Ok'):
             return payload(t[3], variant)
         return mk_ite(t[1], payload(t[2], variant), payload(t[3], variant))
     return ('some_of', t)
@@ -1036,11 +1036,13 @@ class Walker:
             self.guard_counter += 1
             kind = 'write' if 'write' in name else 'read'
             gid = (kind, self.guard_counter)
-            self.emit('lock', n, pc, mode=kind, gid=gid, on=recv)
+            self.emit('lock', n, pc, mode=kind, gid=gid, on=recv, how=name)
             self.guards.append(gid)
-            if 'VolatileState' in recv_ty or 'VolatileState' in self.tystr(n):
-                return ('state',)
-            return ('guard', recv)
+            g = ('state',) if ('VolatileState' in recv_ty or 'VolatileState' in self.tystr(n)) else ('guard', recv)
+            if name.startswith('try_'):
+                # Result<guard, TryLockError>: acquired or not is not known statically
+                return mk_ite(Atom(('acquired', gid)), ('ok', g), ('err', ('opaque', 'would-block')))
+            return g
 
         # ---- explicit drop of a guard
         if path in ('std::mem::drop', 'core::mem::drop') and args and args[0] == ('state',):
